@@ -21,6 +21,7 @@ func (s *vfSM) resync(vs []*vfViol) bool {
 	for _, v := range vs {
 		switch {
 		case v.Owner == "C03" && strings.HasPrefix(v.Sig, "C03/remaining-cost"):
+		case v.Sig == "MODEL/accounted-keys-differ-from-history":
 		case v.Owner == "C17": // metric counters are observers: nothing in the model depends on them
 		case v.Sig == "C13/capacity-held-by-nothing": // a consequence of the same accounting divergence
 		default:
@@ -165,8 +166,22 @@ func (s *vfSM) checkAccounting(vs *[]*vfViol) {
 	if s.c.MaxCost() != s.maxCost {
 		s.add(vs, vfV("C03", "max-cost", "MaxCost()=%d, configured/updated value %d", s.c.MaxCost(), s.maxCost))
 	}
-	if rc != s.maxCost-s.used {
-		s.add(vs, vfV("C03", "remaining-cost-vs-history", "RemainingCost()=%d but the history accounts for used=%d of MaxCost %d (accounted by cache: %v, by model: %v)", rc, s.used, s.maxCost, pk, s.acct))
+	// the cost the cache accounts for a key must be the cost the history implies (explicit cost or Config.Cost, plus the
+	// internal cost unless ignored). Keys that only one side knows are a matter of *which* keys are resident (C13, C02,
+	// C04 ...), not of C03: the model then simply adopts the cache's view.
+	keysDiffer := len(pk) != len(s.acct)
+	for k, mc := range s.acct {
+		pc, ok := pk[k]
+		if !ok {
+			keysDiffer = true
+			continue
+		}
+		if pc != mc {
+			s.add(vs, vfV("C03", "remaining-cost-vs-history", "key %d is accounted with cost %d, the history of writes implies %d (RemainingCost()=%d, MaxCost %d)", k, pc, mc, rc, s.maxCost))
+		}
+	}
+	if keysDiffer {
+		s.add(vs, vfV("MODEL", "accounted-keys-differ-from-history", "accounted by cache: %v, by the history: %v", pk, s.acct))
 	}
 }
 
@@ -256,12 +271,12 @@ func (s *vfSM) checkDrained(vs *[]*vfViol) {
 	}
 	for k, e := range s.resident {
 		if v, ok := mk[k]; (!ok || v != e.tok) && !s.tainted[k] {
-			s.add(vs, vfV("C13", "map-differs-from-history", "key %d: map holds (%d,%v), history says %d", k, v, ok, e.tok))
+			s.add(vs, vfV("MODEL", "map-differs-from-history", "key %d: map holds (%d,%v), history says %d", k, v, ok, e.tok))
 		}
 	}
 	for k, v := range mk {
 		if _, ok := s.resident[k]; !ok && !s.tainted[k] {
-			s.add(vs, vfV("C13", "map-differs-from-history", "key %d: map holds %d, history says absent", k, v))
+			s.add(vs, vfV("MODEL", "map-differs-from-history", "key %d: map holds %d, history says absent", k, v))
 		}
 	}
 	s.checkIter(vs, 0)
@@ -389,9 +404,7 @@ func (s *vfSM) modelSet(op *vfOp, ok bool, observedUpd bool, now time.Time, vs *
 	// (a write that ShouldUpdate refuses is neither a new-key Set nor an applied overwrite: no property states its return value)
 	if want := room || upd; ok != want && !refusedOverwrite {
 		s.add(vs, vfV("C06", "set-return", "Set(%d) returned %v; reference FIFO holds %d of %d, overwrite of resident key: %v", op.Key, ok, len(s.fifo), s.fifoCap(), upd))
-		if !upd {
-			s.add(vs, vfV("C17", "set-return", "new-key Set(%d) returned %v with the reference FIFO at %d of %d", op.Key, ok, len(s.fifo), s.fifoCap()))
-		}
+
 	}
 	s.deleted[op.Key] = false
 	delete(s.swept, op.Key)
@@ -519,7 +532,11 @@ func (s *vfSM) applyPend(p vfPend, evs []vfCB, est map[uint64]int64, vs *[]*vfVi
 		}
 		// "remaining capacity" for C09 is MaxCost minus the costs of the resident keys (what C03 says RemainingCost() is)
 		d := &vfDecision{MaxCost: s.maxCost, Costs: map[uint64]int64{}, Est: est, InKey: p.key, InCost: c, Added: !rejected}
-		for k, v := range s.acct {
+		src := s.acct
+		if s.preAcct != nil {
+			src = s.preAcct // judge the decision against the population the policy really had (its agreement with the history is C03/C13's business)
+		}
+		for k, v := range src {
 			d.Costs[k] = v
 			d.Used += v
 		}
@@ -613,6 +630,10 @@ func (s *vfSM) stepOne(vs *[]*vfViol) {
 	if p.kind == pNew {
 		est = s.snapshotEst(p.key)
 	}
+	s.preAcct = nil
+	if p.kind == pNew {
+		s.preAcct = s.policyKeys() // what the cache itself charges right before the decision
+	}
 	s.stepOneReal()
 	s.fifo = s.fifo[1:]
 	if s.twin != nil {
@@ -657,7 +678,7 @@ func (s *vfSM) sweepEvict(e vfCB, now time.Time, vs *[]*vfViol, midSweep bool) {
 		return
 	}
 	if !in || ent.tok != e.tok {
-		s.add(vs, vfV("C14", "sweep-removed-nonresident", "expiry processing reported value %d for key %d; the reference map holds %+v (present %v)", e.tok, e.key, ent, in))
+		s.add(vs, vfV("MODEL", "sweep-removed-nonresident", "expiry processing reported value %d for key %d; the reference map holds %+v (present %v)", e.tok, e.key, ent, in))
 		return
 	}
 	cls := "plain"
